@@ -369,12 +369,23 @@ class Hooks:
                 return r
 
         def open_(path, mode="r", *a, **k):
-            # the repaired code does not open the cache file for writing at all; if some version does (in-place
-            # rewrite), that is the action 'inplace': the file has just been truncated
+            # the repaired code does not open any file for writing by name; if some version does, then either it is the
+            # cache file itself (in-place rewrite: the action 'inplace', the file has just been truncated) or it is some
+            # other file that is to receive the profile (a temporary file by another route than tempfile.mkstemp): that
+            # open is then the action 'mkstemp' and the file's write/close are gated like those of the mkstemp file, so
+            # that crash points and schedules keep their meaning whatever way the temporary file is made
+            writing = any(ch in mode for ch in "wax+")
+            if not writing:
+                return open(path, mode, *a, **k)
+            is_cache = str(path).endswith(".profrs")
+            if not is_cache:
+                hooks.gate("mkstemp")
             f = open(path, mode, *a, **k)
-            if "w" in mode:
+            if is_cache:
                 hooks.gate("inplace")
-            return f
+                return f
+            hooks.after("mkstemp")
+            return _WFile(f, hooks)
 
         self.saved = {n: C.__dict__.get(n, _MISSING) for n in ("os", "tempfile", "open")}
         C.os, C.tempfile, C.open = OsProxy(), TmpProxy(), open_
@@ -416,6 +427,12 @@ class _WFile:
         if a[0] is None:
             self.hooks.after("close")
         return False
+
+    def close(self):
+        self.__exit__(None, None, None)
+
+    def __getattr__(self, name):
+        return getattr(self.f, name)
 
 
 def stray_files(org="ORG", fid="FID"):
@@ -627,12 +644,21 @@ def findings_interleave(ctx, bench, rng):
             state = {"i": 0, "views": [], "arrived": 0}
             answers = {"T0": answer(("p",) + pa), "T1": answer(("p",) + pb)}
 
+            state["done"] = set()
+            state["came"] = set()
+
+            def skip_done():
+                # turns of a thread that has finished belong to nobody: pass over them
+                while state["i"] < len(order) and order[state["i"]][0] in state["done"]:
+                    state["i"] += 1
+
             def gate(kind):
                 if kind not in ACTS:
                     return
                 me = int(threading.current_thread().name[1:])
                 with cond:
-                    if kind == "mkstemp":
+                    if me not in state["came"]:
+                        state["came"].add(me)
                         state["arrived"] += 1
                         cond.notify_all()
                     ok = cond.wait_for(lambda: state["arrived"] == 2 and state["i"] < len(order)
@@ -644,6 +670,7 @@ def findings_interleave(ctx, bench, rng):
                 with cond:
                     state["views"].append(view_bytes(bench.get_disk()))
                     state["i"] += 1
+                    skip_done()
                     cond.notify_all()
 
             results = {}
@@ -655,6 +682,15 @@ def findings_interleave(ctx, bench, rng):
                     results[name] = ["ok"] + list(_REV.get(r.read(), ("?",)))
                 except Exception as e:  # noqa
                     results[name] = ["err", canon_exc(e)]
+                finally:
+                    me = int(name[1:])
+                    with cond:
+                        state["done"].add(me)
+                        if me not in state["came"]:
+                            state["came"].add(me)
+                            state["arrived"] += 1
+                        skip_done()
+                        cond.notify_all()
 
             bench.hook = None
             old_script = bench.net.script
@@ -717,6 +753,36 @@ def findings_key(ctx, bench):
                     f"clients for {url_a} and {url_b} without ORG/FID share {files[0]}: the second server was asked with "
                     f"the first server's DTPROFUP and its 'up to date' answer returned the first server's profile",
                     {"file": files[0], "same_file": True})
+    F.wipe_profiles()
+    # ... and two servers that DO name different FIs never share one (whatever characters ORG/FID contain)
+    pairs = [(("msdw.com", "1235"), ("msdw.com", "14137")), (("a.b", "c"), ("a", "b.c")), (("X", "1.0"), ("X", "1.5")),
+             (("bank-1", "2"), ("bank", "1-2")), (("Org", "7"), ("org", "7"))]
+    rng = ctx.rng
+    alphabet = "ab.-_ 1"
+    for _ in range(ctx.budget(6)):
+        def word():
+            return "".join(rng.choice(alphabet) for _ in range(rng.randint(1, 5))).strip() or "x"
+        x, y = (word(), word()), (word(), word())
+        if x != y:
+            pairs.append((x, y))
+    for (oa, fa), (ob, fb) in pairs:
+        F.wipe_profiles()
+        a = bench.client(url=U, org=oa, fid=fa)
+        b = bench.client(url=V, org=ob, fid=fb)
+        ra = bench.call(a, ("p",) + P2, oa, fa)
+        rb = bench.call(b, ("U",), ob, fb)          # B's server holds nothing newer than 1990: with no cache that is an error
+        files = sorted(x.name for x in F.profile_dir().iterdir()) if F.profile_dir().exists() else []
+        rep = ctx.model.ask([line("cache.key", opt(oa), opt(fa)), line("cache.key", opt(ob), opt(fb))])
+        keys = [dstr(rep[0].vals[0]), dstr(rep[1].vals[0])]
+        case = {"op": "key2", "clients": [{"url": U, "org": oa, "fid": fa}, {"url": V, "org": ob, "fid": fb}]}
+        # on a case-insensitive file system two names differing in case are one file; compare modulo that only if so
+        same = keys[0] == keys[1]          # f"{org}-{fid}" is not injective: 'bank-1'/'2' and 'bank'/'1-2' (recorded finding)
+        ctx.compare("cache.key.distinct", case, [files, rb[1]], [[keys[0]], [P2[0]] if same else ["default"]])
+        if rb[1] != ["default"] or (rb[0][:1] == ["ok"] and rb[0] == ra[0]):
+            ctx.violate("cache_shared_between_different_fis", case,
+                        f"clients configured for different institutions (ORG/FID {oa!r}/{fa!r} and {ob!r}/{fb!r}) share the "
+                        f"cache file(s) {files}: the second server was asked with DTPROFUP {rb[1]} and the call returned {rb[0]}",
+                        {"files": files, "org_dash_fid_texts_equal": same})
     F.wipe_profiles()
 
 
